@@ -387,9 +387,17 @@ def normalize(ctx, F):
             lits = literals(b, R, bb)
             guard = any(op_ == 'Gt' for op_, x_, y_ in prune.cmp_facts(lits))
             divs.append((a[0], (a[1],), guard, True))
-    comps_scaled = sorted(d[0][2] for d in divs if d[0][0] == 'field' and is_call(d[0][1], 'Iterator::next'))
+    def comp_of(tgt):
+        # (zipped item, component) a division applies to: the component itself, or every element of it in turn (`row.iter_mut().for_each(..)`)
+        if tgt[0] == 'field' and is_call(tgt[1], 'Iterator::next'):
+            return tgt[1], tgt[2]
+        if is_call(tgt, 'Iterator::next') and tgt[2] and tgt[2][0][0] == 'field' and is_call(tgt[2][0][1], 'Iterator::next'):
+            return tgt[2][0][1], tgt[2][0][2]
+        return None, None
+    cs = [comp_of(d[0]) for d in divs]
+    comps_scaled = sorted(c[1] for c in cs if c[1] is not None)
     same = len(divs) == 2 and s(divs[0][1]) == s(divs[1][1]) and all(d[2] and d[3] for d in divs) and comps_scaled == ['0', '1'] and \
-        s(divs[0][0][1]) == s(divs[1][0][1])
+        s(cs[0][0]) == s(cs[1][0])
     # nothing else writes the rows: every other &mut use of self's arrays is iteration plumbing
     from ..effects import mut_calls, assigns
     PLUMBING = {'outer_iter_mut', 'rows_mut', 'axis_iter_mut', 'iter_mut', 'next', 'zip', 'into_iter', 'enumerate', 'view_mut', 'row_mut', 'index_mut', 'for_each'}
